@@ -620,3 +620,18 @@ package exif2
 //@   ensures b.pos == 0 && b.len == old(b.len) - old(b.pos)
 //@   requires [C03] sortedTags(b)
 //@   ensures [C03] sortedTags(b)
+
+// ---- C03, dates: which stored components each composite timestamp is made of. The arithmetic (time.Time methods) is a
+// dependency; the READS FRAME pins that ModifyDate uses DateTime/SubSecTime/OffsetTime, DateTimeOriginal the *Original
+// components and CreateDate the *Digitized ones - and nothing else of the Exif value.
+//@ func Exif.ModifyDate
+//@   props C03
+//@   reads e.Time.modifyDate, e.Time.subSecTime, e.Time.offsetTime
+
+//@ func Exif.DateTimeOriginal
+//@   props C03
+//@   reads e.Time.dateTimeOriginal, e.Time.subSecTimeOriginal, e.Time.offsetTimeOriginal
+
+//@ func Exif.CreateDate
+//@   props C03
+//@   reads e.Time.createDate, e.Time.subSecTimeDigitized, e.Time.offsetTimeDigitized
